@@ -23,6 +23,7 @@ import re
 
 import impl
 import gens
+import c20_nodes
 from wire import Ok, Err, oracle_batch, oracle1, r_result, r_opt, Some
 import pycaption
 from pycaption import (DFXPReader, MicroDVDReader, WebVTTReader, SAMIReader, SRTReader, SCCReader,
@@ -411,7 +412,7 @@ def judge_own(fmt, cs, info, res, docs_out=None):
     res["violations"].append(v)
 
 
-def run_own_output(ctx, res, n, docs_out):
+def run_own_output(ctx, res, n, docs_out, sets_out=None):
     cases = boundary_cases()
     for i in range(n):
         fmt = WRITERS[i % len(WRITERS)]
@@ -425,6 +426,8 @@ def run_own_output(ctx, res, n, docs_out):
             cases.append((fmt, cs, info))
     for fmt, cs, info in cases:
         judge_own(fmt, cs, info, res, docs_out)
+        if sets_out is not None and info["ncaps"] <= 60:
+            sets_out.append((fmt[0], cs))
 
 
 # ------------------------------------------------------------------------------------------------ stream C
@@ -540,7 +543,7 @@ def run_shapes(res, judged):
 
 def run(ctx):
     res = {"evaluations": 0, "nontrivial": set(), "violations": [], "disagreements": [], "distribution": {},
-           "streams": 6, "notes": []}
+           "streams": 7, "notes": []}
     dist = res["distribution"]
     rng = ctx.rng
     # E: marker boundary cases (sniffer-level, alarm level)
@@ -575,8 +578,11 @@ def run(ctx):
     check_strings(rs, res, "C")
     # D: own output (collects the complete documents for B)
     judged = []
-    run_own_output(ctx, res, ctx.n(240, 6000), judged)
+    sets = []
+    run_own_output(ctx, res, ctx.n(240, 6000), judged, sets)
     docs = [d for _, d in judged]
+    # G: the writer models that start from the text nodes, against the real writers (request 2003)
+    c20_nodes.run_nodes(ctx, res, sets)
     # F: writer outputs as instances of the own-output theorems
     run_shapes(res, judged)
     # B: complete documents + truncations
@@ -635,4 +641,9 @@ def replay(ctx, rec):
             rd = impl.call(lambda: R().read(doc), timeout=120)
             good = isinstance(rd, Ok)
         return (not good), repr(det)
+    if rec.get("replay") == "own-detect":
+        doc = rec["document"]
+        R = dict((n, r) for n, _, r in WRITERS)[rec["fmt"]]
+        det = impl.call(lambda: pycaption.detect_format(doc))
+        return (not (isinstance(det, Ok) and det.v is R)), repr(det)
     return False, "unknown replay kind"
